@@ -141,7 +141,14 @@ func c30OpenLedger(ch *c30Chain, name string) (*data.Ledger, error) {
 	cfg := config.GetDefaultLocal()
 	cfg.Archival = true
 	prefix := filepath.Join(ch.scratch, fmt.Sprintf("%s-%d", name, ch.seq.Add(1)))
-	return data.LoadLedger(c30Logger(), prefix, true, protocol.ConsensusCurrentVersion, ch.genBal, c30GenesisID, ch.genHash, cfg)
+	// LoadLedger adjusts the fee sink entry inside the balances map it is given: every ledger gets its
+	// own copy (cases open ledgers concurrently).
+	gb := ch.genBal
+	gb.Balances = make(map[basics.Address]basics.AccountData, len(ch.genBal.Balances))
+	for a, d := range ch.genBal.Balances {
+		gb.Balances[a] = d
+	}
+	return data.LoadLedger(c30Logger(), prefix, true, protocol.ConsensusCurrentVersion, gb, c30GenesisID, ch.genHash, cfg)
 }
 
 func c30BuildChain(c *kit.Ctx, tip int) *c30Chain {
